@@ -342,3 +342,40 @@ Definition prop_c13_b (compact : bool) (m : lmsg) (out : str) : bool :=
 
 (* well-formedness of inputs: every string is made of 16-bit units *)
 Definition unitsb (s : str) : bool := forallb (fun u => u <? 65536) s.
+
+(* ------------------------------------------------------------------ front ends (round 8)
+   How an application obtains JsonFormatter OBJECTS: SimplePipeline::formatToJson(flag) and
+   JsonFormatter::instance().  The state is what survives between calls in one process: the
+   function-local static object behind instance(), once created, with the flag it was created with. *)
+Inductive fluent_src :=
+| FFresh          (* formatToJson(flag) appends a NEW JsonFormatter(flag) *)
+| FFreshNoFlag    (* a new object, the flag is not handed on *)
+| FShared.        (* formatToJson(flag) appends the shared static object, created (with this flag) by the first request *)
+Record json_front := {
+  fluent_obj : fluent_src;
+  ctor_default_compact : bool;      (* JsonFormatter(bool compact = <this>) *)
+  instance_arg : option bool }.     (* instance(): JsonFormatterPtr::create(<this>) ; None = no argument *)
+Inductive fcall := CFluent (flag : bool) | CInstance.
+Definition fstate := option bool.     (* flag of the static object, if it exists already *)
+Definition instance_flag (fr : json_front) : bool :=
+  match instance_arg fr with Some b => b | None => ctor_default_compact fr end.
+(* one request: new state, constructor flag of the object the caller gets *)
+Definition obtain (fr : json_front) (st : fstate) (c : fcall) : fstate * bool :=
+  match c with
+  | CInstance => match st with Some b => (st, b) | None => (Some (instance_flag fr), instance_flag fr) end
+  | CFluent flag =>
+      match fluent_obj fr with
+      | FFresh => (st, flag)
+      | FFreshNoFlag => (st, ctor_default_compact fr)
+      | FShared => match st with Some b => (st, b) | None => (Some flag, flag) end
+      end
+  end.
+Definition obtain_all (fr : json_front) (st : fstate) (cs : list fcall) : fstate := fold_left (fun s c => fst (obtain fr s c)) cs st.
+(* what the caller asked for: formatToJson(flag) asks for flag; instance() is documented as the indented default formatter *)
+Definition requested (c : fcall) : bool := match c with CFluent f => f | CInstance => false end.
+Definition front_goodb (fr : json_front) : bool :=
+  match fluent_obj fr with FFresh => true | _ => false end && negb (ctor_default_compact fr)
+  && match instance_arg fr with None => true | Some b => negb b end.
+(* the text a formatter obtained by request c (after the earlier requests cs of this process) produces *)
+Definition front_format (cfg : json_cfg) (fr : json_front) (cs : list fcall) (c : fcall) (m : lmsg) : str :=
+  json_format cfg (snd (obtain fr (obtain_all fr None cs) c)) m.
